@@ -342,7 +342,13 @@ func cmdCheck(prop, tier, only string, workers int) int {
 			hr2 := explore(P, h.fn, o2)
 			var best *PathResult
 			for _, p := range hr2.Paths {
-				if p.Outcome.IsViolation() && p.ModelRes == "sat" {
+				inRegion := false
+				for _, k := range p.Known {
+					if k == id {
+						inRegion = true
+					}
+				}
+				if p.Outcome.IsViolation() && p.ModelRes == "sat" && inRegion {
 					if best == nil || len(p.Inputs) < len(best.Inputs) {
 						best = p
 					}
